@@ -54,6 +54,8 @@ pub enum Op {
     CheckCompat(usize, u32),
     SerializeFile(usize),
     SerializeElem(usize),
+    /// Element::cmp on every ordered pair of sub-elements of the handle (C14)
+    CmpKids(usize),
 }
 
 fn xh(b: &[u8]) -> String {
@@ -119,6 +121,7 @@ impl Op {
             CheckCompat(f, v) => format!("OP2 check_compat {} {}", f, v),
             SerializeFile(f) => format!("OP2 serialize_file {}", f),
             SerializeElem(h) => format!("OP2 serialize_elem {}", h),
+            CmpKids(h) => format!("OP2 cmp_kids {}", h),
         }
     }
     pub fn parse(l: &str) -> Option<Op> {
@@ -165,6 +168,7 @@ impl Op {
             "check_compat" => CheckCompat(u(0), w[3].parse().unwrap()),
             "serialize_file" => SerializeFile(u(0)),
             "serialize_elem" => SerializeElem(u(0)),
+            "cmp_kids" => CmpKids(u(0)),
             other => panic!("unknown op {}", other),
         })
     }
@@ -238,6 +242,16 @@ pub fn show_cdata(c: &CharacterData) -> String {
     }
 }
 
+/// Element::cmp of every ordered pair of sub-elements: rows separated by '/', one of < = > per pair
+pub fn cmp_matrix(e: &Element) -> String {
+    let kids: Vec<Element> = e.sub_elements().collect();
+    let rows: Vec<String> = kids
+        .iter()
+        .map(|a| kids.iter().map(|b| match a.cmp(b) { std::cmp::Ordering::Less => '<', std::cmp::Ordering::Equal => '=', std::cmp::Ordering::Greater => '>' }).collect::<String>())
+        .collect();
+    rows.join("/")
+}
+
 pub struct Exec<'a> {
     pub names: &'a Names,
     pub models: Vec<AutosarModel>,
@@ -306,6 +320,7 @@ impl<'a> Exec<'a> {
             Compat(Vec<CompatibilityError>, u32),
             Load(Result<(ArxmlFile, Vec<AutosarDataError>), AutosarDataError>),
             Dup(Result<AutosarModel, AutosarDataError>),
+            Raw(String),
             Bad(&'static str),
         }
         let opc = op.clone();
@@ -380,6 +395,7 @@ impl<'a> Exec<'a> {
                 },
                 SerializeFile(f) => R::Text(files[*f].serialize()),
                 SerializeElem(a) => R::Text(Ok(h(a).serialize())),
+                CmpKids(a) => R::Raw(format!("cmp {}", cmp_matrix(&h(a)))),
             }
         });
         match r {
@@ -388,6 +404,10 @@ impl<'a> Exec<'a> {
             Ok(R::Unit(Ok(()))) => {
                 self.discover(None);
                 "R OK".to_string()
+            }
+            Ok(R::Raw(t)) => {
+                self.discover(None);
+                format!("R OK {}", t)
             }
             Ok(R::Text(Ok(t))) => {
                 self.discover(None);
